@@ -247,14 +247,26 @@ def sym_pep(ctx, cfg):
     from symx.core import SNum, PathOutcome, Unsupported
     P, Q, K, assumed = _world(ctx, cfg)
     alg = cfg["alg"]
+
+    def estimate(scores, targets):
+        if alg == "kde_nnls":
+            return P.peps_from_scores_kde_nnls(scores, targets, num_eval_scores=cfg.get("grid", 3))
+        return P.peps_from_scores(scores, targets, alg)
+    props2 = []
     try:
         zs, labels, scores, targets = _inputs(ctx, cfg)
         inputs = dict(scores=[SNum(z) for z in zs], targets=labels, alg=alg)
         try:
-            if alg == "kde_nnls":
-                out = P.peps_from_scores_kde_nnls(scores, targets, num_eval_scores=cfg.get("grid", 3))
-            else:
-                out = P.peps_from_scores(scores, targets, alg)
+            out = estimate(scores, targets)
+            if cfg.get("again"):
+                # a session: the SAME array objects are refilled in place with other scores and estimated again
+                # (a table re-scored in a loop); the second result must belong to the second contents
+                out = symnp.SArray(list(out.items), out.dtype)
+                zs2 = [z3.Real("s2_%d" % i) for i in range(len(zs))]
+                scores.items[:] = [SNum(z) for z in zs2]
+                inputs["scores2"] = [SNum(z) for z in zs2]
+                out2 = estimate(scores, targets)
+                props2 = [("second_call:" + k, v) for k, v in _structure(zs2, out2)]
         except Unsupported:
             raise
         except ZeroDivisionError:
@@ -265,7 +277,7 @@ def sym_pep(ctx, cfg):
         core.DIV_HOOK[0] = None
     ctx.notes.append(("assumed_nonzero_denominators", assumed[0]))
     ctx.notes.append(("kernel_calls", len(K.calls)))
-    return PathOutcome(_structure(zs, out) + _pi0_props(K), inputs, None)
+    return PathOutcome(_structure(zs, out) + props2 + _pi0_props(K), inputs, None)
 
 
 def sym_qvalues(ctx, cfg):
@@ -355,6 +367,10 @@ def harnesses(tier):
                 continue
             hs.append(Harness(name, cfg, sym_pep, real="pep", functions=fns, bounds=dict(N=n_, bins=2, grid=3), stubs=CONTRACTS,
                               assumptions=[">= %d target(s) and decoy(s), scores finite reals, not all equal" % need], sample_rate=0.02))
+    for alg in ("hist_nnls", "qvality"):
+        hs.append(Harness("pep[%s,n=2,same arrays refilled in place and estimated again]" % alg, dict(n=2, alg=alg, min_each=1, bins=2, grid=3, again=True), sym_pep, real="pep",
+                          functions=[P.peps_from_scores], bounds=dict(N=2, bins=2, calls=2), stubs=CONTRACTS,
+                          assumptions=[">= 1 target and decoy, scores finite reals, not all equal", "labels unchanged between the two calls"], sample_rate=0.05))
     for alg, fns in (("from_peps", [Q.qvalues_from_peps, P.monotonize_simple]), ("from_counts", [Q.qvalues_from_scores, Q.qvalues_from_counts, P.hist_data_from_scores, P.estimate_pi0_by_slope, P.monotonize_simple])):
         for n in range(2, nmax + 1):
             cfg = dict(n=n, alg=alg, min_each=1, bins=2)
@@ -495,15 +511,34 @@ def _run(cfg, inp, call, lo_only, what, label):
     import warnings
     last = dict(outputs=None, violation=None)
     for s, t, how in _embeddings(inp, bool(cfg.get("_failed"))):
+        arr, lab = s.copy(), t.copy()
         with warnings.catch_warnings():
             warnings.simplefilter("ignore")
             try:
-                out = call(s.copy(), t.copy())
+                out = call(arr, lab)
             except BaseException as ex:
                 return dict(exception=repr(ex), violation="%s on %s raised %r" % (label, how, ex))
         v = _check_vector(s, out, lo_only, what)
         if v:
             return dict(outputs=None, violation="%s on %s: %s" % (label, how, v))
+        if cfg.get("again"):
+            # the same array objects refilled in place: the scores of the targets reversed among the targets, those of the
+            # decoys among the decoys (every PSM keeps a score of its own kind), and estimated again
+            import numpy as np
+            s2 = s.copy()
+            for kind in (True, False):
+                idx = np.flatnonzero(t == kind)
+                s2[idx] = s[idx][::-1]
+            arr[:] = s2
+            with warnings.catch_warnings():
+                warnings.simplefilter("ignore")
+                try:
+                    out2 = call(arr, lab)
+                except BaseException as ex:
+                    return dict(exception=repr(ex), violation="%s on %s, second call on the same arrays refilled in place, raised %r" % (label, how, ex))
+            v = _check_vector(s2, out2, lo_only, what)
+            if v:
+                return dict(outputs=None, violation="%s on %s, second call on the same arrays after they were refilled in place: %s" % (label, how, v))
     return last
 
 
